@@ -39,7 +39,8 @@ type sBContent struct {
 }
 
 func (c *sBContent) RoundNumber() round.Number { return c.rn }
-func (c *sBContent) Reliable() bool            { return true }
+// as in the library: only the round-2 broadcast is tagged "reliable"; the handler echoes EVERY broadcast round whatever the tag
+func (c *sBContent) Reliable() bool { return c.rn == 2 }
 
 type sRoundSpec struct {
 	Num   int  `json:"num"`
@@ -677,6 +678,22 @@ func runSession(c *Ctx, sidBase string, mode string) {
 			d.kind = "replay"
 		case r == 2 && mode == "noise": // a tampered copy on top of the honest one
 			d.m, d.kind = tamper(c, d.m, sc0, sc0.IDs[d.to])
+		case r == 3 && mode != "honest" && len(history) > 0:
+			// a conflicting duplicate: same header as a message delivered a moment ago (most likely of the round the
+			// recipient is still in), other payload: the first copy must stay the one that counts
+			lo := len(history) - 6
+			if lo < 0 {
+				lo = 0
+			}
+			hd := history[lo+c.Intn(len(history)-lo)]
+			if hd.m.RoundNumber > 0 && len(hd.m.Data) > 0 {
+				var cur sContent
+				if cbor.Unmarshal(hd.m.Data, &cur) == nil {
+					t := cloneMsg(hd.m)
+					reencode(t, cur.V+7, cur.F)
+					d = delivery{m: t, to: hd.to, kind: "conflicting-duplicate"}
+				}
+			}
 		default:
 			pending = append(pending[:k], pending[k+1:]...)
 		}
